@@ -639,3 +639,8 @@ func c13CloseRecv(p *c13Plan, res *c13Res, conn *tds.Conn, ch *tds.Channel) {
 	})
 	simrt.Join(consumer, closer)
 }
+
+// RequiredProbes: a batch in which one of these never fired explored nothing of that kind (exit 2, not a pass).
+func (c13) RequiredProbes() []string {
+	return []string{"landed-inside-call", "kind:cancel", "kind:close-queue", "kind:close-send", "kind:close-recv", "kind:closed-calls", "kind:conn-close", "send-with-cancelled-context"}
+}
